@@ -226,7 +226,7 @@ class Interp:
             roles = root[2] if len(root) > 2 else frozenset()
             st = None
             extra = None
-            for tag in self.role_tags(roles):
+            for tag in self.common_role_tags(roles):
                 if tag in self.cfg.cell_init:
                     st = self.cfg.cell_init[tag]
                     if isinstance(st, dict):
@@ -273,11 +273,27 @@ class Interp:
             return string([("param", root[1], root[2])])
         return TOP
 
+    def common_role_tags(self, roles):
+        """partition tags of a key: the tags of its own roles, or - for a key read from a collection - the tags
+        shared by all the origins its value may stem from"""
+        direct = frozenset(r for r in roles if not (isinstance(r, tuple) and r[0] in ("via", "was")))
+        origins = [r[1] for r in roles if isinstance(r, tuple) and r[0] == "via"]
+        res = None
+        if direct:
+            res = self.role_tags(direct)
+        for o in origins:
+            t = self.role_tags(o)
+            res = t if res is None else (res & t)
+        return res or set()
+
     def role_tags(self, roles, depth=0):
         """partition tags of a key: the plain role names and, for neighbour keys, the path
         'nbr:<dir>:<tag of the parent key>' (e.g. nbr:Outgoing:nbr:Incoming:sigtarget)"""
         out = set()
         for r in roles:
+            if isinstance(r, tuple) and r[0] == "via":
+                out |= self.role_tags(r[1], depth)     # element of a local collection: roles of its origin
+                continue
             if isinstance(r, tuple):
                 out.add(r[0])
                 if r[0] == "nbr" and depth < 4:
